@@ -287,6 +287,9 @@ type Q struct {
 	KeepFailpoints bool
 	// LastBlocks: after a successful Reach, the sequence of blocks of the witness path.
 	LastBlocks []*ssa.BasicBlock
+	// AssumeNil: nil-ness facts that hold where the search starts (value -> is nil), e.g. "the error is not nil"
+	// when the search starts on the error edge of its test
+	AssumeNil map[ssa.Value]bool
 	// NoHelpers disables the helper summary of NoPass (see helperMustPass)
 	NoHelpers   bool
 	depth       int
@@ -303,6 +306,10 @@ type Step struct {
 type phiEnv struct {
 	m   map[*ssa.Phi]ssa.Value
 	key string
+	// nilOf: values known to be nil (true) / non-nil (false) on this path, recorded only for values whose
+	// nil-ness the function tests more than once (the caller's test of a result repeated behind an inlined
+	// helper's own test)
+	nilOf map[ssa.Value]bool
 }
 
 func (e *phiEnv) with(b *ssa.BasicBlock, predIdx int) *phiEnv {
@@ -364,15 +371,94 @@ func (e *phiEnv) with(b *ssa.BasicBlock, predIdx int) *phiEnv {
 		}
 		changed[phi] = v
 	}
-	if changed == nil {
-		return e
+	// facts about values (re)defined in the block entered are forgotten
+	var nilOf map[ssa.Value]bool
+	if e != nil && len(e.nilOf) > 0 {
+		drop := false
+		for v := range e.nilOf {
+			if in, ok := v.(ssa.Instruction); ok && in.Block() == b {
+				drop = true
+			}
+		}
+		if drop {
+			nilOf = map[ssa.Value]bool{}
+			for v, t := range e.nilOf {
+				if in, ok := v.(ssa.Instruction); ok && in.Block() == b {
+					continue
+				}
+				nilOf[v] = t
+			}
+		} else {
+			nilOf = e.nilOf
+		}
 	}
-	keys := make([]string, 0, len(changed))
-	for k, x := range changed {
+	if changed == nil {
+		if e == nil || len(nilOf) == len(e.nilOf) {
+			return e
+		}
+		return newPhiEnv(e.m, nilOf)
+	}
+	return newPhiEnv(changed, nilOf)
+}
+
+func newPhiEnv(m map[*ssa.Phi]ssa.Value, nilOf map[ssa.Value]bool) *phiEnv {
+	keys := make([]string, 0, len(m)+len(nilOf))
+	for k, x := range m {
 		keys = append(keys, k.Name()+"="+x.Name()+x.String())
 	}
+	for v, t := range nilOf {
+		keys = append(keys, fmt.Sprintf("nil(%s@%p)=%v", v.Name(), v, t))
+	}
 	sortStrings(keys)
-	return &phiEnv{changed, strings.Join(keys, ";")}
+	return &phiEnv{m: m, key: strings.Join(keys, ";"), nilOf: nilOf}
+}
+
+// withNil returns the environment extended by the fact "v is nil" = t.
+func (e *phiEnv) withNil(v ssa.Value, t bool) *phiEnv {
+	var m map[*ssa.Phi]ssa.Value
+	nilOf := map[ssa.Value]bool{}
+	if e != nil {
+		m = e.m
+		for k, x := range e.nilOf {
+			nilOf[k] = x
+		}
+	}
+	nilOf[v] = t
+	return newPhiEnv(m, nilOf)
+}
+
+var nilTestCount = map[*ssa.Function]map[ssa.Value]int{}
+
+// nilTested: how often fn compares v with nil.
+func nilTested(fn *ssa.Function, v ssa.Value) int {
+	m, ok := nilTestCount[fn]
+	if !ok {
+		m = map[ssa.Value]int{}
+		for _, b := range fn.Blocks {
+			for _, in := range b.Instrs {
+				if bo, ok := in.(*ssa.BinOp); ok && (bo.Op == token.EQL || bo.Op == token.NEQ) {
+					if x, isNil := nilOperand(bo); isNil {
+						m[x]++
+					}
+				}
+			}
+		}
+		nilTestCount[fn] = m
+	}
+	return m[v]
+}
+
+// nilOperand: for `x == nil` / `x != nil` the (stripped) x.
+func nilOperand(bo *ssa.BinOp) (ssa.Value, bool) {
+	cx, okx := Strip(bo.X).(*ssa.Const)
+	cy, oky := Strip(bo.Y).(*ssa.Const)
+	switch {
+	case oky && cy.Value == nil && isNilable(bo.X.Type()) && !okx:
+		return Strip(bo.X), true
+	case okx && cx.Value == nil && isNilable(bo.Y.Type()) && !oky:
+		return Strip(bo.Y), true
+	}
+	return nil, false
 }
 
 var cmpConstCache = map[*ssa.Phi]bool{}
@@ -630,7 +716,11 @@ func (q *Q) reach(b0 *ssa.BasicBlock, idx0 int, target func(ssa.Instruction) boo
 		env string
 		a   int
 	}
-	queue := []st{{b0, idx0, -1, nil, nil, 0}}
+	var env0 *phiEnv
+	if len(q.AssumeNil) > 0 {
+		env0 = newPhiEnv(nil, q.AssumeNil)
+	}
+	queue := []st{{b0, idx0, -1, nil, env0, 0}}
 	visited := map[vkey]bool{}
 	mk := func(i int) []Step {
 		var rev []Step
@@ -693,10 +783,25 @@ func (q *Q) reach(b0 *ssa.BasicBlock, idx0 int, target func(ssa.Instruction) boo
 			occ[s]++
 			a := cur.a
 			var via *Step
+			nilFact, nilIs := false, false
+			var nilVal ssa.Value
 			if isIf {
 				v, neg, known, val := effCond(ifi, cur.env)
 				if known && val != (k == 0) {
 					continue
+				}
+				// a second test of a value whose nil-ness an earlier branch of this path has decided
+				if bo, isBin := v.(*ssa.BinOp); isBin && !known && (bo.Op == token.EQL || bo.Op == token.NEQ) {
+					if x, isNilTest := nilOperand(bo); isNilTest && nilTested(b.Parent(), x) > 1 {
+						// truth of "x == nil" on this edge
+						isNil := ((k == 0) != neg) == (bo.Op == token.EQL)
+						if cur.env != nil {
+							if t, have := cur.env.nilOf[x]; have && t != isNil {
+								continue
+							}
+						}
+						nilFact, nilVal, nilIs = true, x, isNil
+					}
 				}
 				e := Edge{If: ifi, True: k == 0, cond: v, neg: neg, has: true}
 				if !q.KeepFailpoints && IsFailpointEdgeInfeasible(e) {
@@ -714,7 +819,11 @@ func (q *Q) reach(b0 *ssa.BasicBlock, idx0 int, target func(ssa.Instruction) boo
 				}
 				via = &Step{ifi, k == 0}
 			}
-			env := cur.env.with(s, predIndex(s, b, nth))
+			envIn := cur.env
+			if nilFact {
+				envIn = envIn.withNil(nilVal, nilIs)
+			}
+			env := envIn.with(s, predIndex(s, b, nth))
 			key := vkey{s, env.k(), a}
 			if visited[key] {
 				continue
